@@ -157,10 +157,12 @@ FreesOf(e) == {m \in RangeOf(MemEv(e)) : m.e = "free"}
 (***************************************************************************)
 
 \* ---- C01: value model -------------------------------------------------
+LogLimit == 16384
 ValueLaws(S, e, E, k, val2, obs) ==
   (IF E.want = "ok" /\ k # "ok" THEN {<<"C01", "in_contract_ok">>} ELSE {})
   \cup (IF DOMAIN obs # DOMAIN val2 THEN {<<"C01", "value_eq">>}
-        ELSE IF \E h \in DOMAIN obs : obs[h].len # Len(val2[h]) \/ (obs[h].len >= 0 /\ obs[h].d # val2[h])
+        \* (the harness does not log contents longer than LogLimit bytes: only the length is compared then)
+        ELSE IF \E h \in DOMAIN obs : obs[h].len # Len(val2[h]) \/ (obs[h].len >= 0 /\ obs[h].len <= LogLimit /\ obs[h].d # val2[h])
              THEN {<<"C01", "value_eq">>} ELSE {})
 
 \* Same address?  Under adjacent placement a one-past-the-end pointer of block A is also the
